@@ -27,7 +27,15 @@ package state
 //@ requires s != nil
 //@ ensures result != nil && fresh(result) && validBal(result) && decBal(result) == (&s.Balance).v
 
+// The NEO balance record (a five-field struct item) as a reading: the balance it spells; an absent
+// (empty) record spells zero. The two codec functions are assumed to agree with the reading.
+//@ spec neoBal(b seq) int
 //@ func NEOBalanceFromBytes
 //@ assumed
 //@ pure
-//@ ensures result1 == nil ==> result0 != nil && fresh(result0)
+//@ ensures result1 == nil ==> result0 != nil && fresh(result0) && (&result0.Balance).v == ite(len(b) == 0, 0, neoBal(b))
+//@ func (*NEOBalance).Bytes
+//@ assumed
+//@ pure
+//@ requires s != nil
+//@ ensures result != nil && fresh(result) && len(result) > 0 && neoBal(result) == (&s.Balance).v
